@@ -1,4 +1,4 @@
-import Ufo2ftModel.Model.C05
+import Ufo2ftModel.Spec.C05
 /-! C05, application semantics: what an OpenType shaper does with the kerning program the writer emits
     (`Program`: the lookups with their rules, and the script / language registrations of the `kern` and `dist` features),
     for two ADJACENT glyphs `g1 g2` of a run of one script tag, default language.
@@ -94,5 +94,81 @@ def addQ2 (a b : Q × Q) : Q × Q := (a.1 + b.1, a.2 + b.2)
 /-- (xAdvance, xPlacement) adjustment of `g1` when followed by `g2` in a run of script tag `tag` -/
 def applyKern (p : Program) (tag g1 g2 : String) : Q × Q :=
   ((p.lookups.filter (fun l => (activeLookups p tag).contains l.name)).map (·.apply g1 g2)).foldl addQ2 (0, 0)
+
+/-! ### the hypotheses of the end-to-end theorem `C05_end_to_end` (Props/C05Apply.lean), as decidable predicates on the inputs -/
+
+/-- the pair's two sides contain the two glyphs (Bool form of `Matches`) -/
+def KPair.hits (p : KPair) (g1 g2 : String) : Bool := p.side1.glyphs.contains g1 && p.side2.glyphs.contains g2
+
+/-- the generated kerning pair that determines what (g1, g2) gets: the first match of the `KerningPair`-sorted list
+    (by `C05_ufo_some` it is the pair made from the kerning entry `lookupKerningValue` finds) -/
+def detPair (gs : List String) (groups : List (String × List String)) (kerning : List (String × String × Q)) (q : Q)
+    (g1 g2 : String) : Option KPair :=
+  (sortPairs (getKerningPairs gs (getKerningGroups gs groups) q kerning)).find? (fun p => p.hits g1 g2)
+
+/-- the pair lists `_makeKerningLookups` hands to `_makeSplitScriptKernLookups`: (pairs, ignoreMarks flag, name suffix) -/
+def pairLists (pairs : List KPair) (marks : Option (List String)) (ignoreMarks : Bool) : List (List KPair × Bool × String) :=
+  if ignoreMarks then
+    (if (splitBaseAndMarkPairs pairs marks).1.isEmpty then [] else [((splitBaseAndMarkPairs pairs marks).1, true, "")]) ++
+    (if (splitBaseAndMarkPairs pairs marks).2.isEmpty then [] else [((splitBaseAndMarkPairs pairs marks).2, false, "_marks")])
+  else [(pairs, false, "")]
+
+/-- the cells (after base/mark splitting and direction splitting) of ONE generated pair that contain (g1, g2) -/
+def cellsOf (c : Ctx) (marks : Option (List String)) (ignoreMarks : Bool) (p : KPair) (g1 g2 : String) : List KPair :=
+  (((pairLists [p] marks ignoreMarks).flatMap (fun l => l.1.flatMap (partitionByScript c))).map (·.2)).filter (fun sp => sp.hits g1 g2)
+
+def Ctx.neutral (c : Ctx) (g : String) : Bool := c.resolved g == [COMMON]
+
+/-- "g belongs to script s": s is one of its scripts, or the glyph is script-neutral (Common / Inherited / unknown) -/
+def Ctx.inScript (c : Ctx) (s g : String) : Bool := c.neutral g || (c.resolved g).contains s
+
+/-- `cellClean`: the pair is NOT in one of the three known bidi-cell shapes (DESIGN 5.2).  Only the cell of the DETERMINING
+    generated pair that contains (g1, g2) is looked at:
+    (i)  ambiguous-cell: that cell holds a bidi-R and a bidi-L glyph (the writer drops the whole cell);
+    (ii) cell-L-no-placement: the script is right-to-left and the cell holds a bidi-L glyph (no x-placement is written);
+    (iii) neutral-rtl-placement: the script is right-to-left and both glyphs are script-neutral (the Common lookup is written
+          with left-to-right records). -/
+def cellClean (c : Ctx) (gs : List String) (groups : List (String × List String)) (kerning : List (String × String × Q)) (q : Q)
+    (marks : Option (List String)) (ignoreMarks : Bool) (s g1 g2 : String) : Bool :=
+  match detPair gs groups kerning q g1 g2 with
+  | none => true
+  | some p =>
+    let rtl := c.dir s == "RTL"
+    (cellsOf c marks ignoreMarks p g1 g2).all (fun sp =>
+      let hasR := sp.glyphs.any c.bidiR.contains
+      let hasL := sp.glyphs.any c.bidiL.contains
+      !(hasR && hasL) && !(rtl && hasL)) &&
+    !(rtl && c.neutral g1 && c.neutral g2)
+
+/-- the Unicode context is as fontTools supplies it: Common is the one script of direction "Auto", and all scripts of a glyph
+    of the font are written in the same direction -/
+def ctxOK (c : Ctx) (gs : List String) : Bool :=
+  c.dir COMMON == "Auto" &&
+  gs.all (fun g => (c.resolved g).all (fun s => (s == COMMON || c.dir s != "Auto") &&
+    (c.resolved g).all (fun s' => c.dir s == c.dir s')))
+
+/-- distinct lookups get distinct names (`kern_<scripts>[_marks]`; true for four-letter script codes) -/
+def namesOK (c : Ctx) (pairs : List KPair) (marks : Option (List String)) (ignoreMarks : Bool) : Bool :=
+  decide ((pairLists pairs marks ignoreMarks).flatMap (fun l => (splitKerning c l.1).map (fun e => lookupName e.1 l.2.2))).Nodup
+
+/-- the feature that carries the script's kerning is (re)written by the writer: `dist` for the dist-enabled scripts, `kern`
+    otherwise — and `kern` (whose DFLT registration a shaper falls back to) when neither glyph is a letter of the script -/
+def featOn (c : Ctx) (r : RegCtx) (todoKern todoDist : Bool) (s g1 g2 : String) : Bool :=
+  if (c.resolved g1).contains s || (c.resolved g2).contains s then (if r.dist.contains s then todoDist else todoKern)
+  else todoKern
+
+/-- all hypotheses of `C05_end_to_end` for (script s, tag, g1, g2) -/
+def e2eHyp (c : Ctx) (r : RegCtx) (gs : List String) (groups : List (String × List String)) (kerning : List (String × String × Q))
+    (q : Q) (marks : Option (List String)) (ignoreMarks todoKern todoDist : Bool) (s tag g1 g2 : String) : Bool :=
+  wfKern gs groups kerning && ctxOK c gs && gs.contains g1 && gs.contains g2 &&
+  !DFLT_SCRIPTS.contains s && ((alookup s r.otTags).getD []).contains tag &&
+  c.inScript s g1 && c.inScript s g2 && featOn c r todoKern todoDist s g1 g2 &&
+  namesOK c (getKerningPairs gs (getKerningGroups gs groups) q kerning) marks ignoreMarks &&
+  cellClean c gs groups kerning q marks ignoreMarks s g1 g2
+
+/-- what `C05_end_to_end` says `applyKern` returns: the rounded UFO value as advance, and as placement in a right-to-left script -/
+def e2eExpected (c : Ctx) (groups : List (String × List String)) (kerning : List (String × String × Q)) (q : Q)
+    (s g1 g2 : String) : Q × Q :=
+  (quantize (ufoKern groups kerning g1 g2) q, if c.dir s == "RTL" then quantize (ufoKern groups kerning g1 g2) q else 0)
 
 end Ufo2ft.C05
